@@ -73,6 +73,11 @@ type Mint struct {
 	// pending/spent and then mark them (swap, melt, settling a melt), so that
 	// two concurrent requests cannot both pass the check for the same proof.
 	proofsMu *sync.Mutex
+
+	// mintQuotesMu serializes the read-check-write sequences on the state of
+	// mint quotes (state polls, the invoice subscription, minting), so that a
+	// quote cannot be issued twice for one payment.
+	mintQuotesMu *sync.Mutex
 }
 
 func LoadMint(config Config) (*Mint, error) {
@@ -118,15 +123,16 @@ func LoadMint(config Config) (*Mint, error) {
 
 	ctx, cancel := context.WithCancel(context.Background())
 	mint := &Mint{
-		db:         db,
-		keysets:    make(map[string]crypto.MintKeyset, len(dbKeysets)),
-		limits:     config.Limits,
-		logger:     logger,
-		mppEnabled: config.EnableMPP,
-		publisher:  pubsub.NewPubSub(),
-		ctx:        ctx,
-		cancel:     cancel,
-		proofsMu:   &sync.Mutex{},
+		db:           db,
+		keysets:      make(map[string]crypto.MintKeyset, len(dbKeysets)),
+		limits:       config.Limits,
+		logger:       logger,
+		mppEnabled:   config.EnableMPP,
+		publisher:    pubsub.NewPubSub(),
+		ctx:          ctx,
+		cancel:       cancel,
+		proofsMu:     &sync.Mutex{},
+		mintQuotesMu: &sync.Mutex{},
 	}
 
 	// if no keysets stored, just create a new one
@@ -336,6 +342,13 @@ func (m *Mint) RequestMintQuote(mintQuoteRequest nut04.PostMintQuoteBolt11Reques
 
 // GetMintQuoteState returns the state of a mint quote.
 func (m *Mint) GetMintQuoteState(quoteId string) (storage.MintQuote, error) {
+	m.mintQuotesMu.Lock()
+	defer m.mintQuotesMu.Unlock()
+	return m.getMintQuoteState(quoteId)
+}
+
+// getMintQuoteState must be called with mintQuotesMu held.
+func (m *Mint) getMintQuoteState(quoteId string) (storage.MintQuote, error) {
 	mintQuote, err := m.db.GetMintQuote(quoteId)
 	if err != nil {
 		return storage.MintQuote{}, cashu.QuoteNotExistErr
@@ -370,7 +383,11 @@ func (m *Mint) GetMintQuoteState(quoteId string) (storage.MintQuote, error) {
 // MintTokens verifies whether the mint quote with id has been paid and proceeds to
 // sign the blindedMessages and return the BlindedSignatures if it was paid.
 func (m *Mint) MintTokens(mintTokensRequest nut04.PostMintBolt11Request) (cashu.BlindedSignatures, error) {
-	mintQuote, err := m.GetMintQuoteState(mintTokensRequest.Quote)
+	// hold the lock from reading the quote state until it is marked as issued
+	m.mintQuotesMu.Lock()
+	defer m.mintQuotesMu.Unlock()
+
+	mintQuote, err := m.getMintQuoteState(mintTokensRequest.Quote)
 	if err != nil {
 		return nil, err
 	}
@@ -995,7 +1012,9 @@ func (m *Mint) settleQuotesInternally(
 
 	// mark mint quote request as paid
 	mintQuote.State = nut04.Paid
+	m.mintQuotesMu.Lock()
 	err = m.db.UpdateMintQuoteState(mintQuote.Id, mintQuote.State)
+	m.mintQuotesMu.Unlock()
 	if err != nil {
 		errmsg := fmt.Sprintf("error updating mint quote state: %v", err)
 		return storage.MeltQuote{}, cashu.BuildCashuError(errmsg, cashu.DBErrCode)
